@@ -56,16 +56,22 @@ pub fn gen_map(rng: &mut Rng, nseg: usize, big_zone_azimuth: bool) -> ClutterMap
                                 _ => rng.urange(1, 4),
                             }
                         };
-                        (0..z)
-                            .map(|_| {
-                                let end = match rng.below(8) {
-                                    0 => 511,
-                                    1 | 2 | 3 => rng.below(512) as u16,
-                                    _ => rng.u16(),
-                                };
-                                (rng.below(3) as u16, end)
-                            })
-                            .collect()
+                        let mut zones: Vec<(u16, u16)> = Vec::with_capacity(z);
+                        for _ in 0..z {
+                            // a zone may repeat its predecessor exactly: still a zone of its own
+                            if !zones.is_empty() && rng.chance(1, 6) {
+                                let prev = zones[zones.len() - 1];
+                                zones.push(prev);
+                                continue;
+                            }
+                            let end = match rng.below(8) {
+                                0 => 511,
+                                1 | 2 | 3 => rng.below(512) as u16,
+                                _ => rng.u16(),
+                            };
+                            zones.push((rng.below(3) as u16, end));
+                        }
+                        zones
                     })
                     .collect()
             })
